@@ -4,17 +4,19 @@ import glob, hashlib, os, subprocess, time
 
 VERIF = os.path.dirname(os.path.dirname(os.path.abspath(__file__)))
 CACHE = os.path.join(VERIF, '.cache', 'mir')
+REPO = os.path.abspath(os.environ.get('VERIF_REPO', '/repo'))
 CRATES = {
-    'stellar-contract-utils': '/repo/packages/contract-utils',
-    'stellar-tokens': '/repo/packages/tokens',
+    'stellar-contract-utils': REPO + '/packages/contract-utils',
+    'stellar-tokens': REPO + '/packages/tokens',
 }
 
 
 def source_hash(crate):
     h = hashlib.sha256()
+    h.update(REPO.encode())
     roots = [CRATES[crate]]
     if crate == 'stellar-tokens':
-        roots += [CRATES['stellar-contract-utils'], '/repo/packages/governance']
+        roots += [CRATES['stellar-contract-utils'], REPO + '/packages/governance']
     for root in roots:
         for f in sorted(glob.glob(os.path.join(root, 'src', '**', '*.rs'), recursive=True)) + [os.path.join(root, 'Cargo.toml')]:
             if '/test' in f and f.endswith('.rs') and ('/test/' in f or f.endswith('test.rs')):
@@ -33,9 +35,9 @@ def get_mir(crate):
     env = dict(os.environ, RUSTUP_TOOLCHAIN='stable-x86_64-unknown-linux-gnu', RUSTC_BOOTSTRAP='1',
                CARGO_TARGET_DIR=os.path.join(CACHE, 'target'), CARGO_NET_OFFLINE='true')
     t0 = time.time()
-    subprocess.run(['cargo', 'clean', '--offline', '-p', crate], cwd='/repo', env=env, stdout=subprocess.DEVNULL, stderr=subprocess.DEVNULL)
+    subprocess.run(['cargo', 'clean', '--offline', '-p', crate], cwd=REPO, env=env, stdout=subprocess.DEVNULL, stderr=subprocess.DEVNULL)
     p = subprocess.run(['cargo', 'rustc', '--offline', '-p', crate, '--lib', '--', '-Zunpretty=mir', '-C', 'overflow-checks=on'],
-                       cwd='/repo', env=env, stdout=subprocess.PIPE, stderr=subprocess.PIPE, text=True, timeout=1800)
+                       cwd=REPO, env=env, stdout=subprocess.PIPE, stderr=subprocess.PIPE, text=True, timeout=1800)
     if p.returncode != 0 or len(p.stdout) < 1000:
         raise RuntimeError('MIR dump failed for %s:\n%s' % (crate, p.stderr[-3000:]))
     with open(path, 'w') as f:
